@@ -29,6 +29,9 @@ def make_project(seed, nfiles, workdir, size=0.8):
         wide += '  String w%d = "%s"; // %s\n' % (k, ch * n, ch * (n // 2))
     wide += '  void wideBody() { helper("%s", "%s"); /* %s */ }\n}\n' % ('漢' * 70, 'я' * 120, 'ж' * 90)
     files.append(('src/twins/Wide.java', wide.encode('utf-8')))
+    # many object creations with "x" as first argument, with another one, and with none at all (where `GetArg(0)` fails)
+    news = 'class News {\n  void make() {\n' + ''.join('    Object a%d = new Box%d("x", %d);\n    Object b%d = new Box%d();\n    Object c%d = new Box%d(other, %d);\n' % (k, k, k, k, k, k, k, k) for k in range(14)) + '  }\n}\n'
+    files.append(('src/twins/News.java', news.encode()))
     proj = workdir + '/proj'
     qrun.write_project(proj, files)
     return proj, files
